@@ -29,7 +29,8 @@ func xs(x uint64) uint64 {
 	return x
 }
 
-var ranges_ = []string{"1-10", "1-100x5", "10-1", "1-20y3", "1-12:3", "5,3,1", "-10--2x2", "1-5,7-9#", "bad", "1-5x0"}
+var ranges_ = []string{"1-10", "1-100x5", "10-1", "1-20y3", "1-12:3", "5,3,1", "-10--2x2", "1-5,7-9#", "bad", "1-5x0",
+	"1-5,99999999999999999999", "88888888888888888888", "1-77777777777777777777x2", "9223372036854775808-3"} // incl. numbers that do not fit an int (error path)
 var seqs_ = []string{"/a/b/foo.1-10#.exr", "/a/foo.0001.exr", "bar.1-5,8@@.tar.gz", "/x/y.%04d.e", "q.$F3.e", "u.<UDIM>.tif", "plain.txt", "/a/b/",
 	"/w/v.1-3%020d.e", "/w/v.1-5,8%040d.e", "w.5-7$F33.e", "/w/z.2-9x3%0100d.e"}
 var lists_ = [][]string{{"/d/a.0001.exr", "/d/a.0002.exr", "/d/a.0004.exr", "/d/readme.txt"}, {"x.1.e", "x.2.e", "x.03.e", ".h.1.e"}}
